@@ -263,6 +263,18 @@ pub fn catalogue(thorough: bool) -> Vec<Kind> {
     // ---- MapInstructions ----
     c.extend([MapGet, MapInsert]);
 
+    // ---- AssignmentInstructions: single and batched assignments of small values ----
+    for ty in [Ty::Y, Ty::B] {
+        c.push(AssignMany { ty, len: 1, many: false });
+        for len in 1..=10 {
+            c.push(AssignMany { ty, len, many: true });
+        }
+    }
+    c.push(AssignMany { ty: Ty::N, len: 1, many: false });
+    for len in if t { vec![1, 2, 4, 5, 6, 9, 10] } else { vec![1, 5, 9] } {
+        c.push(AssignMany { ty: Ty::N, len, many: true });
+    }
+
     provenance_entries(t, &mut c);
     composition_entries(t, &mut c);
     c
@@ -899,6 +911,36 @@ fn inputs_pool(kind: &Kind, thorough: bool, rng: &mut ChaCha8Rng) -> (Vec<Vec<V>
             }
             cap_override = Some(if thorough { m + 2 } else { 5 });
             lens.into_iter().map(|l| vec_elems(rng, *t, l)).collect()
+        }
+        AssignMany { ty, len, .. } => {
+            let mk = |f: &mut dyn FnMut(usize) -> V| (0..*len).map(|i| f(i)).collect::<Vec<V>>();
+            let mut v = vec![];
+            match ty {
+                Ty::Y => {
+                    v.push(mk(&mut |_| V::Y(255)));
+                    v.push(mk(&mut |i| V::Y(if i % 2 == 0 { 0 } else { 254 })));
+                    for _ in 0..nr {
+                        v.push(mk(&mut |_| V::Y(rng.gen())));
+                    }
+                }
+                Ty::B => {
+                    v.push(mk(&mut |_| V::B(true)));
+                    v.push(mk(&mut |i| V::B(i % 2 == 1)));
+                    v.push(mk(&mut |_| V::B(false)));
+                    for _ in 0..nr {
+                        v.push(mk(&mut |_| V::B(rng.gen())));
+                    }
+                }
+                Ty::N => {
+                    v.push(mk(&mut |_| vn(-F::ONE)));
+                    v.push(mk(&mut |i| vn(F::from(i as u64))));
+                    for _ in 0..nr {
+                        v.push(mk(&mut |_| vn(rnd(rng))));
+                    }
+                }
+            }
+            cap_override = Some(if thorough { 6 } else { 3 });
+            v
         }
         Fixed { inner, consts } => {
             // witness operands of the inner operation's classes, plus values next to the constants
